@@ -361,6 +361,43 @@ def rule_k(F):
 
 
 # ---------------------------------------------------------------------------------------------------
+# C15.G  a card's own instructions are recorded under the card's own index
+# ---------------------------------------------------------------------------------------------------
+
+def rule_g(F):
+    """In every arm of process_card, everything the arm emits itself (push_instruction, encode_if_then's jump, local
+    variable reads/writes, add_local and its errors, scope_end's pops ...) happens while the sub-index stack is at its
+    entry depth; a sub-index is pushed only around the compilation of a child. Otherwise the trace table maps the card's
+    own instructions (and compile errors) to one of its children."""
+    res = []
+    fn = F.fn("compiler::Compiler::process_card")
+    arms, _pre, _tail = cs.arms_of(fn)
+    if arms is None:
+        raise AnchorMissing("match on CardBody in process_card")
+    for arm in arms:
+        names = [v for v in arm.variants if v != "_"]
+        if not names:
+            continue
+        w = cw.Walk(F, fn, arm.env)
+        w.walk(arm.body)
+        emits = [ev for ev in w.events if ev[0] == "emit"]
+        if not emits:
+            continue
+        off = [ev for ev in emits if ev[2]]
+        key = "C15/G/%s/own-instructions-at-own-index" % "+".join(names)
+        if off:
+            ev = off[0]
+            res.append(bad("C15.G", key, fn.loc(ev[3]),
+                           "the %s arm calls %s while a child sub-index %s is pushed: the instructions (or the compile error) it produces are "
+                           "recorded under the child's index, so a runtime error raised there (stack exhaustion, timeout) or the compile "
+                           "error is located at the child instead of this card (%d such call(s))"
+                           % ("/".join(names), short(ev[1]).rsplit("::", 1)[-1], path_s(ev[2]), len(off))))
+        else:
+            res.append(ok("C15.G", key, fn.loc(arm.body.get("ln")), "%d emitting call(s), all at the card's own index" % len(emits)))
+    return res
+
+
+# ---------------------------------------------------------------------------------------------------
 # C15.F  every active call frame contributes one trace entry
 # ---------------------------------------------------------------------------------------------------
 
@@ -440,5 +477,6 @@ RULES = [
     Rule("C15.P", rule_p, 50, "runtime errors are located at the failing instruction's opcode position"),
     Rule("C15.C", rule_c, 3, "call frames record the CallFunction opcode position"),
     Rule("C15.K", rule_k, 3, "compile errors raised by Compiler carry the current card"),
+    Rule("C15.G", rule_g, 30, "a card's own instructions are recorded under its own index"),
     Rule("C15.F", rule_f, 1, "every active call frame contributes one trace entry"),
 ]
